@@ -597,4 +597,19 @@ def gen_scenarios(rng):
                 ops.append({"op": "lease", "now": now + 1, "kind": "ack", "dur": 0, "reason": "", "lease": {"ref": [d, j]}})
         ops.append({"op": "stats", "now": now + 2})
         hs.append({"cfg": _cfg0(), "ops": ops, "snap_every": 1, "c13_ok": True})
+    # S15: one dequeue asking for more than the per-call cap (100) while more than that are ready: every store hands out the same number
+    for n, b in ((150, 150), (130, 1000)):
+        now = BASE + rng.randrange(1000) * SEC
+        ops = []
+        i = 0
+        while i < n:
+            m = min(100, n - i)
+            now += MS
+            ops.append({"op": "enqueue_batch", "now": now, "enq": [_enq("C%04d" % (i + j), body=6, recv=now - (n - i - j) * MS) for j in range(m)]})
+            i += m
+        now += SEC
+        ops.append({"op": "dequeue", "now": now, "route": "", "target": "", "batch": b, "ttl": 30 * SEC, "snap": True})
+        ops.append({"op": "dequeue", "now": now + MS, "route": "", "target": "", "batch": b, "ttl": 30 * SEC, "snap": True})
+        ops.append({"op": "stats", "now": now + 2 * MS, "snap": True})
+        hs.append({"cfg": _cfg0(), "ops": ops, "snap_every": 1000, "c13_ok": True, "only": ["C13", "C05"]})
     return hs
